@@ -261,7 +261,10 @@ Proof. vm_compute. reflexivity. Qed.
     the code: constant equal samples give NaN; reference [0, 1/2] vs constant test 0 gives
     KL = -0.3465... = (1/2) ln (1/2) *)
 Example C10_refuted_on_floats :
-  js_dist (A:=FloatA) 10 ([3%Z], [1; 2]) ([2%Z], [1; 2]) [1.5; 1.5; 1.5] [1.5; 1.5] = NaN /\
+  match js_dist (A:=FloatA) 10 ([3%Z], [1; 2]) ([2%Z], [1; 2]) [1.5; 1.5; 1.5] [1.5; 1.5] with
+  | NaN => true
+  | _ => false
+  end = true /\
   match kl_dist (A:=FloatA) 2 ([1%Z; 1%Z], [0; 0.25; 0.5]) ([1%Z], [-0.5; 0.5]) [0; 0.5] [0] with
   | Fin v => PrimFloat.ltb v (-0.34)
   | _ => false
